@@ -31,6 +31,8 @@ import (
 	"math/rand"
 	"net"
 	"os"
+	"path/filepath"
+	"sort"
 	"strings"
 	"testing"
 	"time"
@@ -397,6 +399,114 @@ func (cs *vC10ConnSpec) foreign() string {
 	return ""
 }
 
+// ---------------------------------------------------------------- corpus
+//
+// corpus/C10/conn-*.json: fixed connection histories replayed before the generated ones
+// (minimal inputs of seeded changes and mutations this driver caught). Format:
+//
+//	{"name": "...", "conns": [{"queries": [{"id": 7, "op": 0, "reply": [100], "ok": true}],
+//	                          "junk": [0], "reads": [..], "budgets": [..], "arms": [true,..]}]}
+//
+// a query is a bare 12-byte header (ID, opcode `op`, QDCOUNT 1) + 4 body bytes; its handler
+// writes one reply per entry of "reply" (that many bytes, starting with the ID); budgets:
+// 0 = unlimited, k+1 = the Write accepts k bytes and fails; a size may be written relative to
+// the drain buffer as {"drain": -3} = tcpDrainSize-3.
+type vC10CorpusQuery struct {
+	ID    uint16            `json:"id"`
+	Op    int               `json:"op"`
+	Reply []json.RawMessage `json:"reply"`
+	Ok    *bool             `json:"ok"`
+}
+type vC10CorpusConn struct {
+	Queries []vC10CorpusQuery `json:"queries"`
+	Junk    []byte            `json:"junk"`
+	Reads   []int             `json:"reads"`
+	Budgets []int             `json:"budgets"`
+	Arms    []bool            `json:"arms"`
+}
+type vC10CorpusCase struct {
+	Name  string           `json:"name"`
+	Conns []vC10CorpusConn `json:"conns"`
+}
+
+func vC10CorpusSize(raw json.RawMessage) int {
+	var n int
+	if json.Unmarshal(raw, &n) == nil {
+		return n
+	}
+	var rel struct {
+		Drain *int `json:"drain"`
+	}
+	if json.Unmarshal(raw, &rel) == nil && rel.Drain != nil {
+		return tcpDrainSize + *rel.Drain
+	}
+	return 12
+}
+
+func vC10CorpusPayload(id uint16, n int) []byte {
+	b := make([]byte, n)
+	for i := range b {
+		b[i] = 0xAB
+	}
+	if n >= 1 {
+		b[0] = byte(id >> 8)
+	}
+	if n >= 2 {
+		b[1] = byte(id)
+	}
+	if n >= 4 {
+		b[n-1] = 0xCD
+	}
+	return b
+}
+
+func (cc *vC10CorpusConn) spec(h *vC10ConnHandler) *vC10ConnSpec {
+	cs := &vC10ConnSpec{kinds: map[string]int{"corpus": 1}, ids: map[uint16]bool{}, clean: true}
+	var input []byte
+	for _, q := range cc.Queries {
+		pkt := []byte{byte(q.ID >> 8), byte(q.ID), byte(q.Op&0xF) << 3, 0, 0, 1, 0, 0, 0, 0, 0, 0, 3, 3, 3, 3}
+		sc := &vC10Script{ok: q.Ok == nil || *q.Ok}
+		for _, raw := range q.Reply {
+			sc.main = append(sc.main, vC10Hop{vC10HopWrite, vC10CorpusPayload(q.ID, vC10CorpusSize(raw))})
+		}
+		cs.ids[q.ID] = true
+		h.scripts[q.ID] = sc
+		cs.framesCoq = append(cs.framesCoq, vC10RLE(pkt))
+		cs.scriptsCoq = append(cs.scriptsCoq, fmt.Sprintf("(%d,%s)", q.ID, sc.coq()))
+		input = binary.BigEndian.AppendUint16(input, uint16(len(pkt)))
+		input = append(input, pkt...)
+	}
+	input = append(input, cc.Junk...)
+	cs.nf, cs.junk, cs.reads, cs.budgets, cs.arms = len(cc.Queries), cc.Junk, cc.Reads, cc.Budgets, cc.Arms
+	cs.inputLen, cs.junkLen = len(input), len(cc.Junk)
+	if len(cc.Junk) > 0 || len(cc.Budgets) > 0 || len(cc.Arms) > 0 {
+		cs.clean = false
+	}
+	cs.conn = &vC10Conn{in: input, reads: append([]int(nil), cc.Reads...), budgets: append([]int(nil), cc.Budgets...), arms: append([]bool(nil), cc.Arms...)}
+	return cs
+}
+
+func vC10LoadConnCorpus() []vC10CorpusCase {
+	dir := os.Getenv("VERIF_CORPUS")
+	if dir == "" {
+		return nil
+	}
+	files, _ := filepath.Glob(filepath.Join(dir, "conn-*.json"))
+	sort.Strings(files)
+	var out []vC10CorpusCase
+	for _, p := range files {
+		b, err := os.ReadFile(p)
+		if err != nil {
+			continue
+		}
+		var cases []vC10CorpusCase
+		if json.Unmarshal(b, &cases) == nil {
+			out = append(out, cases...)
+		}
+	}
+	return out
+}
+
 func TestVerifC10Conn(t *testing.T) {
 	out := os.Getenv("VERIF_OUT")
 	if out == "" {
@@ -412,13 +522,18 @@ func TestVerifC10Conn(t *testing.T) {
 	g := &vC10Gen{r: rand.New(rand.NewSource(int64(seed)*104729 + 11))}
 	r := g.r
 
-	for cn := 0; cn < n; cn++ {
+	corpus := vC10LoadConnCorpus()
+	for cn := -len(corpus); cn < n; cn++ {
 		h := &vC10ConnHandler{scripts: map[uint16]*vC10Script{}}
 		plan := resourcePlan{tcpConns: 4, tcpSmallJobs: 2, tcpLargeJobs: 1}
 		e := newTCPEngine(h, "tcp", 0, plan)
 
+		var fixed *vC10CorpusCase
 		nconn := 1
-		if r.Intn(3) == 0 {
+		if cn < 0 {
+			fixed = &corpus[cn+len(corpus)]
+			nconn = len(fixed.Conns)
+		} else if r.Intn(3) == 0 {
 			nconn = 2 + r.Intn(2)
 		}
 		var specs []*vC10ConnSpec
@@ -426,7 +541,12 @@ func TestVerifC10Conn(t *testing.T) {
 		goFail := ""
 		var prevStream *tcpStream
 		for ci := 0; ci < nconn; ci++ {
-			cs := vC10GenConn(g, h, nconn == 1, nconn > 1 && ci < nconn-1)
+			var cs *vC10ConnSpec
+			if fixed != nil {
+				cs = fixed.Conns[ci].spec(h)
+			} else {
+				cs = vC10GenConn(g, h, nconn == 1, nconn > 1 && ci < nconn-1)
+			}
 			specs = append(specs, cs)
 			h.stream = nil
 			func() {
@@ -501,6 +621,9 @@ func TestVerifC10Conn(t *testing.T) {
 				"nontrivial": nreused > 0 && outConns > 1,
 				"desc":       map[string]any{"connections": descs, "pooled_stream_reused": nreused},
 			}
+		}
+		if fixed != nil {
+			line["k"] = "corpus:" + fixed.Name
 		}
 		if goFail != "" {
 			line["go_fail"] = goFail
